@@ -1,12 +1,111 @@
+// verif: the driver of /verif's model-based checks (see /verif/DESIGN.md).
+//
+//	verif check --property C01 --tier quick|thorough [--seed N]
+//	verif replay <path>
 package main
 
 import (
+	"encoding/json"
+	"flag"
 	"fmt"
-
-	"github.com/fullstorydev/emulators/bigtable/bttest"
-	"github.com/fullstorydev/emulators/storage/gcsemu"
+	"os"
+	"strconv"
 )
 
+var checks = map[string]func(*Ctx){}
+
 func main() {
-	fmt.Println(bttest.BtreeStorage{}, gcsemu.NewMemStore() != nil)
+	if len(os.Args) < 2 {
+		fmt.Fprintln(os.Stderr, "usage: verif check --property Cxx --tier quick|thorough | verif replay <path>")
+		os.Exit(2)
+	}
+	switch os.Args[1] {
+	case "check":
+		fs := flag.NewFlagSet("check", flag.ExitOnError)
+		prop := fs.String("property", "", "property id")
+		tier := fs.String("tier", os.Getenv("VERIF_TIER"), "quick|thorough")
+		seed := fs.Int64("seed", 0, "seed")
+		_ = fs.Parse(os.Args[2:])
+		if *tier == "" {
+			*tier = "quick"
+		}
+		if *seed == 0 {
+			if s := os.Getenv("VERIF_SEED"); s != "" {
+				if v, err := strconv.ParseInt(s, 10, 64); err == nil {
+					*seed = v
+				}
+			}
+		}
+		if *seed == 0 {
+			*seed = 1
+		}
+		fn, ok := checks[*prop]
+		if !ok {
+			fmt.Fprintf(os.Stderr, "no check for property %q\n", *prop)
+			os.Exit(2)
+		}
+		c := newCtx(*prop, *tier, *seed)
+		func() {
+			defer func() {
+				if r := recover(); r != nil {
+					c.Inconclusive("harness panic: %v", r)
+				}
+			}()
+			fn(c)
+		}()
+		os.Exit(c.Finish())
+	case "replay":
+		if len(os.Args) < 3 {
+			os.Exit(2)
+		}
+		os.Exit(replay(os.Args[2]))
+	default:
+		fmt.Fprintln(os.Stderr, "unknown command", os.Args[1])
+		os.Exit(2)
+	}
+}
+
+func replay(path string) int {
+	b, err := os.ReadFile(path)
+	if err != nil {
+		fmt.Fprintln(os.Stderr, err)
+		return 2
+	}
+	var f struct {
+		Property string          `json:"property"`
+		What     string          `json:"what"`
+		Case     json.RawMessage `json:"case"`
+	}
+	if err := json.Unmarshal(b, &f); err != nil {
+		fmt.Fprintln(os.Stderr, err)
+		return 2
+	}
+	var kind struct {
+		Kind string `json:"kind"`
+	}
+	_ = json.Unmarshal(f.Case, &kind)
+	fmt.Printf("replaying %s case of %s: %s\n", kind.Kind, f.Property, f.What)
+	fn, ok := replayers[kind.Kind]
+	if !ok {
+		fmt.Fprintln(os.Stderr, "no replayer for kind", kind.Kind)
+		return 2
+	}
+	fails, msg := fn(f.Case)
+	fmt.Println(msg)
+	if fails {
+		fmt.Printf("VIOLATION property=%s replay=%s\n", f.Property, path)
+		return 1
+	}
+	return 0
+}
+
+var replayers = map[string]func(json.RawMessage) (bool, string){
+	"bt-seq": func(raw json.RawMessage) (bool, string) {
+		var cs btCase
+		if err := json.Unmarshal(raw, &cs); err != nil {
+			return false, "inconclusive: " + err.Error()
+		}
+		concretise([][]btOp{cs.Program})
+		return replayBtCase(cs)
+	},
 }
